@@ -63,6 +63,7 @@ type logEx struct {
 	respCT     string
 	respCE     string
 	respPlain  []byte // decoded response body
+	cutAt      int    // > 0: the origin closes its connection after this many bytes of the response (inside the body)
 }
 
 type mpPart struct{ name, filename, ctype, value string }
@@ -318,6 +319,26 @@ func genLogEx(k *kernel.K, id, conn int, last bool, odd bool) *logEx {
 	}
 	e.resp = rs
 	e.skip = w.Chance(1, 6)
+	if last && r.Method != "HEAD" && (rs.Framing == "cl" || rs.Framing == "chunked") && len(rs.Body) > 1 && w.Chance(1, 8) {
+		// fault: the origin closes inside the response body (after at least one body byte)
+		raw := rs.Encode(r.Method)
+		if h := bytes.Index(raw, []byte("\r\n\r\n")) + 4; h >= 4 && len(raw)-h > 2 {
+			if rs.Framing == "cl" {
+				e.cutAt = h + 1 + w.Draw(len(raw)-h-1)
+			} else {
+				// inside the first chunk's data
+				if nl := bytes.Index(raw[h:], []byte("\r\n")); nl > 0 {
+					e.cutAt = h + nl + 2 + 1 + w.Draw(min(len(rs.Body), 200))
+					if e.cutAt >= len(raw)-5 {
+						e.cutAt = 0
+					}
+				}
+			}
+		}
+		if e.cutAt > 0 {
+			k.Probe("fault_origin_closes_inside_body")
+		}
+	}
 	return e
 }
 
@@ -439,6 +460,9 @@ func runLogPass(k *kernel.K, exs []*logEx, nconn int, logger string, opt map[str
 		if e == nil {
 			return &Reply{Raw: []byte("HTTP/1.1 500 Unplanned\r\nContent-Length: 0\r\n\r\n")}
 		}
+		if e.cutAt > 0 {
+			return &Reply{Raw: e.resp.Encode(req.Method)[:e.cutAt], CloseAfter: true}
+		}
 		return &Reply{Raw: e.resp.Encode(req.Method), CloseAfter: respAsksClose(e.resp, req.Method)}
 	})
 	var clients []*Client
@@ -468,9 +492,18 @@ func runLogPass(k *kernel.K, exs []*logEx, nconn int, logger string, opt map[str
 		for j, it := range c.Script {
 			if j < len(fin) {
 				p.clientResp[it.Spec.ID] = fin[j]
+			} else if j == len(fin) && c.P.Cur != nil && c.P.Cur.HeadDone {
+				// a response that was cut short: what arrived of it
+				p.clientResp[it.Spec.ID] = c.P.Cur
 			}
 		}
-		if c.P.Err != nil {
+		cut := false
+		for _, it := range c.Script {
+			if e := byID[it.Spec.ID]; e != nil && e.cutAt > 0 {
+				cut = true
+			}
+		}
+		if c.P.Err != nil && !cut {
 			p.failed = fmt.Sprintf("%s: client stream unparseable: %v", c.Name, c.P.Err)
 		}
 	}
@@ -567,7 +600,7 @@ func runLog(k *kernel.K, focus string) {
 	}
 	if focus == "C15" {
 		for _, e := range exs {
-			desc := fmt.Sprintf("exchange #%d (%s %s, request body %s/%s %dB ce=%q trailers=%d; response %d %s %dB ce=%q trailers=%d; logger %s %v, skip=%v)", e.id, e.req.Method, e.req.Target(), e.reqKind, e.req.Framing, len(e.req.Body), e.reqCE, len(e.req.Trailer), e.resp.Status, e.resp.Framing, len(e.resp.Body), e.respCE, len(e.resp.Trailer), logger, opt, e.skip)
+			desc := fmt.Sprintf("exchange #%d (%s %s, request body %s/%s %dB ce=%q trailers=%d; response %d %s %dB ce=%q trailers=%d; logger %s %v, skip=%v, origin closes after %d bytes of the response (0: never))", e.id, e.req.Method, e.req.Target(), e.reqKind, e.req.Framing, len(e.req.Body), e.reqCE, len(e.req.Trailer), e.resp.Status, e.resp.Framing, len(e.resp.Body), e.respCE, len(e.resp.Trailer), logger, opt, e.skip, e.cutAt)
 			if asp, d := msgAspectDiff(plain.originReqs[e.id], logged.originReqs[e.id]); asp != "" {
 				k.Fail("C15.twin_request", map[string]string{"logger": logger, "aspect": asp}, "%s: the request the origin received differs from the unlogged twin: %s", desc, d)
 			}
@@ -576,10 +609,14 @@ func runLog(k *kernel.K, focus string) {
 				if e.odd == "unannounced_trailer" && strings.Contains(d, "trailer") {
 					params["trailer_announced"] = "false"
 				}
+				if e.cutAt > 0 {
+					params["fault"] = "origin_closes_inside_body"
+				}
 				k.Fail("C15.twin_response", params, "%s: the response the client received differs from the unlogged twin: %s", desc, d)
 			}
 			c15Skip(k, e, logged, desc)
-			if logger == "snapshot" {
+			if logger == "snapshot" && e.cutAt == 0 {
+				// (of a response that was cut short the snapshot is what arrived, not a complete message)
 				c15Snapshot(k, e, logged, desc)
 			}
 		}
@@ -897,6 +934,12 @@ func c16Check(k *kernel.K, exs []*logEx, p *logPass, opt map[string]bool) {
 		}
 		if rs.Content == nil {
 			k.Fail("C16.content", map[string]string{"content_encoding": e.respCE}, "%s: entry has no content object", desc)
+			continue
+		}
+		if e.cutAt > 0 {
+			// the origin closed inside the body: status, headers and cookies describe the message
+			// (judged above); which part of the body is the content is not stated
+			k.Probe("entry_of_response_cut_short")
 			continue
 		}
 		wantContent := e.respPlain
